@@ -126,14 +126,15 @@ public:
      */
     promise remove(ident id) {
         std::lock_guard _(_mx);
-        if (_scheduled.empty()) return {};
-        while (_scheduled[0]._ident == id) {
+        //the heap can become empty while already removed (emptied) items are being popped
+        while (!_scheduled.empty() && _scheduled[0]._ident == id) {
             auto p = std::move(_scheduled[0]._p);
             pop_item();
             if (p) return p;
         }
+        //skip items which has been already removed (they stay in the heap with an empty promise)
         SchVector::iterator iter = std::find_if(_scheduled.begin(), _scheduled.end(),[&](const SchItem &x) {
-            return x._ident == id;
+            return x._ident == id && x._p;
         });
         if (iter == _scheduled.end()) return {};
         return std::move(iter->_p);
